@@ -143,7 +143,7 @@ func (a *cfgShadow) compacted(n *simNode, h absHint) {
 var cfgCrashEnabled = true
 
 // cfgCutEnabled: Abs/CfgRaft.v has STrunc / ARecvCut (requests cut by their connection in these runs)
-var cfgCutEnabled = false
+var cfgCutEnabled = true
 
 func (a *cfgShadow) obs(n *simNode) string {
 	r := n.r
